@@ -31,6 +31,43 @@ def classify(name, evs, fl):
     return name
 
 
+ONCE_WITNESSES = {
+    101: ("finalize-request-repeated-by-every-view-after-catchup",
+          "after a round entrance answered with a committed header every view update of the new round that carries the proposed header "
+          "makes the state machine ask the driver to finalize the same (height, round, block) again (rlc.VRV keeps the view of the round left)"),
+    102: ("finalize-request-twice-per-height-after-jump-ahead-in-commit-wait",
+          "a jump-ahead delivered during commit wait (the finalize request already made) enters the next round; its view holds the precommit "
+          "quorum and beginCommit asks the driver to finalize the block a second time in the same height and lifetime"),
+}
+
+
+def run_once_witnesses(c, binary):
+    """Replays the refutation witnesses of Properties/C08Once.v (Proofs/SMOnceFin.v) on the real code."""
+    body = S.HEADER.replace("Model.SMWalk.", "Model.SMWalk Proofs.SMWitness Proofs.SMOnceFin.") + (
+        "Definition ws : list (N * list event) := [(101, w_fin_round); (102, w_fin_height)].\n"
+        "Definition rep := Eval vm_compute in\n"
+        "  map (fun w => (fst w, combine (map enc_event (snd w)) (map project (run_events (sm0 true) (snd w))))) ws.\n"
+        "Print rep.\n")
+    ok, txt = c.coq_eval("sm_once_witness_c08", body)
+    val = S.parse_coq_value(txt, "rep") if ok else None
+    if val is None:
+        c.fail_obligation("once-witness-eval", txt[-1500:])
+        return
+    traces = [w[1] for w in val]
+    impl, _ = S.run_harness(c, binary, [(1, [])] * len(traces), traces)
+    seen = []
+    for (wid, tr), im in zip(val, impl):
+        key, text = ONCE_WITNESSES[wid]
+        d = S.first_diff(tr, im)
+        if d is not None:
+            c.notes.append("witness %d (%s): implementation differs from the model at event %d" % (wid, key, d))
+            continue
+        seen.append(key)
+        c.report(key, text, {"witness": wid, "how": "bin/h_sm < replay input", "harness_input": S.harness_input(1, tr),
+                             "trace": S.render(tr, im)})
+    c.coverage["once_witnesses_reproduced"] = seen
+
+
 def main(argv):
     c = vcheck.Check("C08", argv)
     c.trusted += ["translator /verif/translate for tm/tmconsensus/math.go and tmstate/internal/tsi/step.go",
@@ -48,6 +85,8 @@ def main(argv):
     S.walked(c, "C08", binary, "c08", n, steps, CLAUSES, classify)
     S.run_scenarios(c, binary, "c08", CLAUSES, classify)
     S.run_witnesses(c, binary, "C08")
+    if proved:
+        run_once_witnesses(c, binary)
     if not proved and not c.violations:
         b = getattr(c, "broken", {"file": "?", "log": ""})
         c.fail_obligation("Properties/C08.v (%s)" % b["file"], b["log"])
